@@ -221,6 +221,25 @@ theorem C07_first_error_final_any_consumer (cd : Codec α) (cfg : DecCfg) (fuel 
   runOps_first_error_final cd cfg fuel hf ops Dec.init evs pre post o
     (by intro len comp h; simp [Dec.init] at h) h he
 
+/-- **tonic's own draining callers are consumers of this kind.**  `client::Grpc::unary` /
+`client_streaming` and `server::Grpc::unary` (`map_request_unary`) do `try_next().await` and then
+`trailers().await?` on the stream they have just built.  Whatever such a call returns is read off
+the consumer `message()ʲ⁺¹ ; trailers()`: a message only if it is the stream's first result (hence,
+by `C07_messages_are_valid_prefix`, the first valid message of the input) and the drain after it
+met no error; the stream's own error otherwise — from the first result or from the drain; and
+"missing message" exactly when the stream ends before any message.  So the theorems above (valid
+prefix, first error final, `trailers()` terminates and reports the stream's own end) are about
+these calls too. -/
+theorem C07_unary_call_is_a_consumer (cd : Codec α) (cfg : DecCfg) (fuel : Nat) (evs : List BodyEv)
+    (h : Dec.unaryCall cd cfg fuel Dec.init evs ≠ .fuel) :
+    ∃ j o x, Dec.runOps cd cfg fuel (List.replicate (j + 1) .message ++ [.trailers]) Dec.init evs
+        = List.replicate j (.item .pending) ++ [.item o, x] ∧
+      UnaryView (Dec.unaryCall cd cfg fuel Dec.init evs) j o x :=
+  unaryCall_view cd cfg fuel Dec.init evs h
+
+example : Dec.unaryCall idCodec { enc := none, maxSize := none, dir := .response 200 } 9 Dec.init
+      [.pending, .data [0, 0, 0, 0, 1, 9], .pending, .data [0, 0, 0, 0, 5, 1]] = .err 2 ⟨13, .eof⟩ := by decide
+
 /- Non-vacuity: `trailers()` called mid-stream consumes the stream's error (a bad flag after one
 message), after which a poll yields `None` and a second `trailers()` returns `Ok(None)` at once;
 and a `trailers()` that drains past a message to OK trailers. -/
